@@ -1,4 +1,5 @@
 import PebblesVerif.Proofs.Introspect
+import PebblesVerif.Props.C15
 /-!
 # C16 — what the gateway reports about its schema is the schema it enforces
 
@@ -130,6 +131,24 @@ theorem C16_type_agrees_with_types (S : Schema) (tyOrd : List TypeDef) (dirOrd :
     · exact (mem_sortByName _ _).mpr hm
     · exact hm
 
+/-! ## the closure: a second gateway can stack on this one -/
+
+/-- the standard introspection query is inside the supported selections -/
+theorem C16_standard_query_supported : supportedSel stdSel = true ∧ isIntro stdSel = true := by decide
+
+/-- **C16, stackable.** For every schema in both feature sets, whatever the iteration order of
+    Go's maps: the answer of this gateway's resolver to the standard introspection query, fed to
+    the reconstruction of introspection/remote.go (a second gateway), yields a schema equivalent
+    to the one this gateway serves. -/
+theorem C16_stackable_partial (S : Schema) (h16 : supportedSchema S = true) (h15 : supportedC15 S = true)
+    (tyOrd : List TypeDef) (dirOrd : List DirDef) (hty : tyOrd.Perm S.types) (hdir : dirOrd.Perm S.directives) :
+    ∃ ans R, resolve S tyOrd dirOrd [] stdSel = some ans ∧ Model.Remote.rebuild ans = .ok R
+      ∧ R.unknownKind = [] ∧ normSchema R.schema = normSchema S := by
+  obtain ⟨R, hR, hk, hn⟩ := C15_rebuild_partial S h15
+  exact ⟨standardAnswer S, R,
+    C16_resolve_eq_spec_partial S h16 tyOrd dirOrd hty hdir [] stdSel C16_standard_query_supported.1 C16_standard_query_supported.2,
+    hR, hk, hn⟩
+
 /-! ## non-vacuity and negative witnesses (by evaluation of the model and of the specification) -/
 
 namespace C16Witness
@@ -186,6 +205,9 @@ theorem ne_of_agree_false {S : Schema} {tyOrd : List TypeDef} {vars : List (Stri
     show J.beq _ _ = true
     exact J.beq_refl _
   rw [this] at h; cases h
+
+/-- both feature sets are satisfiable together (the hypotheses of `C16_stackable_partial`) -/
+example : supportedSchema C15Witness.base = true ∧ supportedC15 C15Witness.base = true := by decide
 
 /-- `__typename` (finding typename-in-introspection): `null` instead of "__Type" -/
 theorem C16_witness_typename : resolve S1 S1.types S1.directives [] [ty "A" [f "__typename" "__typename"]]
